@@ -43,7 +43,7 @@ func run(r *mon.Run) {
 	}
 	n := 3000
 	if r.Thorough {
-		n = 60000
+		n = 600000
 	}
 	for i := 0; i < n; i++ {
 		if !r.Mine(i) {
